@@ -3,6 +3,7 @@ from __future__ import annotations
 
 import contextlib
 import signal
+import time
 
 import numpy as np
 
@@ -49,13 +50,16 @@ CONFIG = {'quick': {'timeout': 900}, 'thorough': {'timeout': 3600}}
 GS_FILE = 'atomman/defect/GammaSurface.py'
 PN_FILE = 'atomman/defect/SDVPN.py'
 MAXN_MONITOR = 64
+SOLVE_STEP_CPU = 15       # s of CPU for the solve step of a history (normal: about 1 s)
+SOLVE_CASE_CPU = 60       # s of CPU for one solve case (normal: 1 - 5 s quick, up to 15 s thorough)
 
 
 # ----------------------------------------------------------------------------
 # helpers
 # ----------------------------------------------------------------------------
-class CpuLimit(Exception):
-    pass
+class CpuLimit(BaseException):
+    """Not an Exception: vf.monitor swallows Exceptions raised inside a postcondition (where most of
+    the CPU time of a monitored solve is spent), which would silently disarm the limit."""
 
 
 @contextlib.contextmanager
@@ -69,12 +73,15 @@ def cpu_limit(seconds):
     except ValueError:          # not the main thread
         yield
         return
-    signal.setitimer(signal.ITIMER_VIRTUAL, seconds)
+    left = signal.setitimer(signal.ITIMER_VIRTUAL, seconds, 1.0)[0]      # fires again every second until disarmed; an enclosing limit is re-armed on exit
+    t0 = time.process_time()
     try:
         yield
     finally:
         signal.setitimer(signal.ITIMER_VIRTUAL, 0)
         signal.signal(signal.SIGVTALRM, old)
+        if left > 0:
+            signal.setitimer(signal.ITIMER_VIRTUAL, max(left - (time.process_time() - t0), 0.01))
 
 
 def plane_of(S, xvect=None, a1=None, a2=None):
@@ -1110,8 +1117,13 @@ def pn_history_case(ctx, am, i):
                 st['alpha'] = alpha_tuple(st['alpha_in'])
                 d0 = st['d'].copy()
                 e0 = sum(v[0] for k2, v in oracle_terms_state(st, state_gammas(st)).items() if k2 != 'stress-literal')
-                pn.solve(x=xn, disregistry=d0.copy(), tau=st['tau'], alpha=st['alpha_in'], beta=st['beta'], cutofflongrange=st['cutoff'],
-                         min_method='Powell', min_options=dict(maxiter=1), **fl)
+                try:
+                    with cpu_limit(SOLVE_STEP_CPU):
+                        pn.solve(x=xn, disregistry=d0.copy(), tau=st['tau'], alpha=st['alpha_in'], beta=st['beta'], cutofflongrange=st['cutoff'],
+                                 min_method='Powell', min_options=dict(maxiter=1), **fl)
+                except CpuLimit as e:
+                    rec.fail(f'one Powell sweep over 10 unknowns on a 7-point grid finishes within {SOLVE_STEP_CPU} s of CPU time (normal: about 1 s)', 'hist:pn:solve-kwargs:cpu-limit', exception=e)
+                    return
                 c2 = 'solve(x=, disregistry=, tau=, ...) on a used object stores the settings it was given: '
                 rec.close(0, pn.tau, st['tau'], c2 + 'tau', 'hist:pn:solve-kwargs:setting:tau')
                 rec.check(tuple(float(t) for t in pn.alpha) == st['alpha'], c2 + 'alpha', 'hist:pn:solve-kwargs:setting:alpha', got=pn.alpha, exp=st['alpha'])
@@ -1163,8 +1175,12 @@ def solve_case(ctx, am, i):
     opts = dict(maxiter=maxiter) if method == 'Powell' else dict(maxiter=20 * N)
     ok = False
     with ctx.guard('solve() runs', f'solve:exception:{method}'):
-        pn.solve(x=x, disregistry=d.copy(), min_method=method, min_options=opts)
-        ok = True
+        try:
+            with cpu_limit(SOLVE_CASE_CPU):
+                pn.solve(x=x, disregistry=d.copy(), min_method=method, min_options=opts)
+            ok = True
+        except CpuLimit as e:
+            rec.fail(f'a one- or two-sweep solve on at most 25 points finishes within {SOLVE_CASE_CPU} s of CPU time (normal: 1 - 15 s)', f'solve:cpu-limit:{method}', exception=e)
     if not ok:
         return
     e1 = float(pn.total_energy())
